@@ -358,6 +358,23 @@ func doCheck(bin, prop string, spec PropSpec, tier string, seedBase uint64, budg
 				fmt.Printf("KNOWN-FINDING: property=%s %s (%s; seen in %d runs)\n", prop, k.Description, id, len(vr))
 				printedKnown[id] = true
 			}
+			if os.Getenv("SIM_EMIT_KNOWN") != "" {
+				// maintenance aid: write a fresh minimised replay of the known finding (never touches
+				// known_findings.json)
+				sort.Slice(vr, func(i, j int) bool { return len(vr[i].sched.Steps) < len(vr[j].sched.Steps) })
+				rawPath := filepath.Join(outDir, fmt.Sprintf("known.%d.raw.json", vr[0].sched.Seed))
+				writeJSON(rawPath, vr[0].sched)
+				mjob := Job{Mode: "minimise", Engine: spec.Engine, Property: prop, Schedule: rawPath, Identity: id, Out: filepath.Join(outDir, "min.jsonl"), MinBudget: spec.MinBudget}
+				lines, _, _ := runWorker(bin, mjob, filepath.Join(outDir, "min.job.json"), 15*time.Minute, 1)
+				for _, l := range lines {
+					if l.Kind == "min" && l.Schedule != nil {
+						slug := strings.NewReplacer("|", "_", "/", "-", "(", "", ")", "").Replace(id)
+						kp := filepath.Join(outDir, "known_"+slug+".min.json")
+						writeJSON(kp, l.Schedule)
+						fmt.Printf("  known-finding replay written: %s (%d steps)\n", kp, len(l.Schedule.Steps))
+					}
+				}
+			}
 			continue
 		}
 		newViol++
@@ -493,23 +510,23 @@ func writeEvidence(prop string, spec PropSpec, tier string, seed uint64, a *agg,
 		"violations":  viol,
 		"assumptions": spec.Assumptions,
 		"coverage": map[string]interface{}{
-			"evaluations":          a.runs,
-			"distinct_nontrivial":  len(keys),
-			"rule":                 spec.Rule,
-			"samples":              samples,
-			"exhaustive":           false,
-			"steps_executed":       a.steps,
-			"runs_per_hour":        perHour,
-			"seeds":                fmt.Sprintf("seed_i = %d*1000003 + i, i in [0,%d)", seed, a.runs),
-			"workers":              workers,
-			"simulated_seconds":    a.simSeconds,
-			"faults_fired":         a.faults,
-			"reach_probes":         a.probes,
+			"evaluations":                    a.runs,
+			"distinct_nontrivial":            len(keys),
+			"rule":                           spec.Rule,
+			"samples":                        samples,
+			"exhaustive":                     false,
+			"steps_executed":                 a.steps,
+			"runs_per_hour":                  perHour,
+			"seeds":                          fmt.Sprintf("seed_i = %d*1000003 + i, i in [0,%d)", seed, a.runs),
+			"workers":                        workers,
+			"simulated_seconds":              a.simSeconds,
+			"faults_fired":                   a.faults,
+			"reach_probes":                   a.probes,
 			"distinct_schedule_fingerprints": len(a.schedFPs),
 			"distinct_state_fingerprints":    len(a.logDigests),
-			"case_keys_sample":     caseSample,
-			"real_vs_stub":         spec.RealStub,
-			"exhaustive_note":      spec.ExhaustiveNote,
+			"case_keys_sample":               caseSample,
+			"real_vs_stub":                   spec.RealStub,
+			"exhaustive_note":                spec.ExhaustiveNote,
 		},
 	}
 	os.MkdirAll(filepath.Join(verifDir, "evidence"), 0o755)
